@@ -211,9 +211,18 @@ def ev_binary(op, a, b, tie_ok=False, a_active=True, b_active=True):
 
 # ----------------------------------------------------------------------------- program generator
 class ProgGen:
-    def __init__(self, rng, supported_only, unsupported, max_stmts=30, max_depth=5):
+    def __init__(self, rng, supported_only, unsupported, max_stmts=30, max_depth=5, exact_only=False):
         self.rng = rng
         self.unary_pool = [f for f in UNARY if not (supported_only and f in unsupported)]
+        self.binary_pool = list(BINARY)
+        self.rhs_pool = SCALAR_RHS + ["Divide"]
+        if not supported_only:
+            # make the functions the Float model cannot reproduce frequent in the programs that may use them
+            self.unary_pool += [f for f in UNARY if f in unsupported] * 4
+        if exact_only:
+            self.unary_pool = list(EXACT_UNARY)
+            self.binary_pool = ["Add", "Subtract", "Multiply", "Divide", "Max", "Min"]
+            self.rhs_pool = ["Add", "Subtract", "Multiply", "Max", "Min", "Divide"]
         self.max_stmts, self.max_depth = max_stmts, max_depth
         self.vals = {}          # handle -> Val (live, initialised)
         self.uninit = set()     # default-constructed, not yet assigned
@@ -260,7 +269,7 @@ class ProgGen:
             self.note("unary", f)
             return ("u", f, a), v
         if x < 0.62:
-            op = r.choice(BINARY)
+            op = r.choice(self.binary_pool)
             a, va = self.expr(depth - 1)
             b, vb = self.expr(depth - 1)
             tie = False
@@ -274,7 +283,7 @@ class ProgGen:
             self.note("binary", op); self.note("kinds", "active∘active")
             return ("b", op, a, b), v
         if x < 0.78:
-            op = r.choice(BINARY)
+            op = r.choice(self.binary_pool)
             c, cv = self.scalar()
             b, vb = self.expr(depth - 1)
             va = self.const_val(cv)
@@ -283,7 +292,7 @@ class ProgGen:
             self.note("binary", op); self.note("kinds", "passive(%s)∘active" % ("int" if c[0] == "i" else "double"))
             return ("l", op, c, b), v
         if x < 0.94:
-            op = r.choice(SCALAR_RHS + ["Divide"])
+            op = r.choice(self.rhs_pool)
             c, cv = self.scalar()
             a, va = self.expr(depth - 1)
             vb = self.const_val(cv)
@@ -477,6 +486,11 @@ class ProgGen:
                 self.statement()
             except Reject:
                 TRK[:] = trk
+        # a default-constructed Active pushes no statement: until it is assigned its gradient slot holds whatever the
+        # previous owner left (documented in Active.h); such variables are never read and are destroyed before the end
+        for h in sorted(self.uninit):
+            self.emit(("del", h))
+        self.uninit.clear()
         self.maxdis = list(TRK)
         return self.stmts
 
